@@ -226,22 +226,7 @@ def validateReport (cfg : Cfg) (rf : RF) : List String :=
 def report (cfg : Cfg) (codec : Codec RF) (σ : Scheds) (prev : Option Bytes)
     (aos : List (Option Obs)) : GoRes (Option (RF × Bytes)) :=
   let paos := parseAll aos
-  if paos.length = 0 then .err "zero-valid"
-  else if !decide (cfg.f + 1 ≤ paos.length) then .err "too-few"
-  else
-    match buildReportFields cfg codec σ prev paos with
-    | .panic => .panic
-    | .err e => .err e
-    | .ok (rf, errs) =>
-      if !errs.isEmpty then .err (errClass "build" errs)
-      else if rf.curNum < rf.validFrom then .ok none
-      else
-        let verrs := validateReport cfg rf
-        if !verrs.isEmpty then .err (errClass "validate" verrs)
-        else
-          match codec.build rf with
-          | .panic => .panic
-          | .err e => .err e
-          | .ok b => checkLen codec.maxLen rf b
+  reportCore cfg.f paos.length (buildReportFields cfg codec σ prev paos)
+    (fun rf => decide (rf.curNum < rf.validFrom)) (validateReport cfg) codec
 
 end DSV.Mercury.V1
